@@ -20,6 +20,6 @@ theorem hash_inputs_as_specified : hashKeys = expected := by decide +kernel
 example : 40 ≤ hashEvents.length := by decide +kernel
 
 /-- the theorem has teeth: removing one event (e.g. a dropped `chain_update(ctx)`) changes the list -/
-example : hashKeys.eraseIdx 30 ≠ expected := by decide +kernel
+example : hashKeys.eraseIdx 40 ≠ expected := by decide +kernel
 
 end Dalek.Props.C08.HashInputs
